@@ -166,3 +166,12 @@ add("c17_basis_sse42", ["C17"], ["tu/crc.c"], "h_crc_cross_sse42", mode="dfcc", 
 # dispatch: my_crc32c_runtime_detection selects one of the two; mtbl_crc32c forwards unchanged
 add("c17_dispatch", ["C17", "C14"], ["tu/crc_dispatch.c"], "h_crc_dispatch", unwind=4, timeout=120, strength="U",
     functions=["my_crc32c_runtime_detection", "my_crc32c_first", "mtbl_crc32c"], assumptions=["cpuid result is arbitrary (either implementation may be selected)"])
+# ---------------------------------------------------------------- C07 fileset induction steps
+FS_FUNCS = ["mtbl_fileset_reload", "mtbl_fileset_reload_now", "fs_reinit_merger", "fileset_source_iter", "fileset_source_get", "fileset_source_get_prefix",
+            "fileset_source_get_range", "fileset_iter_init", "fileset_iter_free"]
+FS_ASSUME = ["libmy/my_fileset.c replaced by its contract with a ghost generation number (reload either changes nothing or loads/unloads readers and bumps the generation) -- the setfile parsing itself is checked in group myfs_reload (bounded)",
+             "monotonic clock strictly increasing; shared timestamps come from that clock", "merger / reader / iterator objects are recording stubs",
+             "arbitrary shared state and handle states satisfying H (handle timestamp == shared timestamp => merger built from the current reader set with the handle's filters) => every history of reloads, dups and iterator opens/closes"]
+for h in ("reload", "reload_now", "iter"):
+    add("fs_" + h + "_step", ["C07", "C18"], ["tu/fileset_step.c"], "h_fileset_" + h + "_step", unwind=5, timeout=600,
+        strength="B: <= 3 entries in the reader set; arbitrary handle/shared state (all histories)", functions=FS_FUNCS, assumptions=FS_ASSUME, replay="c07")
